@@ -138,7 +138,7 @@ Theorem structural_model_family_only :
   forall (fuel : nat) (V : variant) (R : registry) (classes : list (string * cls)) (strictext refuse : bool) (dec : decoder)
          (x : jvalue) (ac io : bool) (version : option ustring),
   reg_known R = true ->
-  forall e s, In (Exc e s) (parse V R (clean_struct fuel V R strictext classes) strictext refuse dec x ac io version) ->
+  forall e s, In (Exc e s) (parse V R (clean_struct fuel V R strictext refuse classes) strictext refuse dec x ac io version) ->
   family e = false -> V s = false.
 Proof.
   intros fuel V R classes strictext refuse dec x ac io version HR e s Hin Hf.
@@ -150,13 +150,13 @@ Print Assumptions structural_model_family_only.
 Theorem structural_model_refines_coarse :
   forall (fuel : nat) (V : variant) (R : registry) (classes : list (string * cls)) (strictext refuse : bool) (dec : decoder)
          (x : jvalue) (ac io : bool) (version : option ustring) r,
-  In r (parse V R (clean_struct fuel V R strictext classes) strictext refuse dec x ac io version) ->
+  In r (parse V R (clean_struct fuel V R strictext refuse classes) strictext refuse dec x ac io version) ->
   exists r', In r' (parse V R clean_any strictext refuse dec x ac io version) /\
              (r = r' \/ exists e, r = Exc e S_lib /\ subclass e K_InvalidValueError = true /\
                                   r' = Exc (Known K_InvalidValueError) S_lib).
 Proof.
   intros fuel V R classes strictext refuse dec x ac io version r Hr.
-  exact (cov_parse V R _ _ strictext refuse (cov_clean_struct_any fuel V R strictext classes) dec x ac io version r Hr).
+  exact (cov_parse V R _ _ strictext refuse (cov_clean_struct_any fuel V R strictext refuse classes) dec x ac io version r Hr).
 Qed.
 Print Assumptions structural_model_refines_coarse.
 
